@@ -10,7 +10,8 @@
 From Coq Require Import ZArith List String Bool.
 From HV Require Import Model.SexpDefs Gen.GenRefine Spec.SmtQuerySpec Model.SmtTextModel
   Model.SolveModel Proofs.SolveProofs
-  Model.SolveFsDefs Gen.GenSolveFs Model.SolveFsModel Proofs.SolveFsProofs.
+  Model.SolveFsDefs Gen.GenSolveFs Model.SolveFsModel Proofs.SolveFsProofs Proofs.SolveTieProofs.
+From HV Require Spec.VerdictSpec Gen.GenSolveDispatch.
 Import ListNotations.
 Open Scope Z_scope.
 
@@ -72,6 +73,27 @@ Theorem C04_refine_once :
     (k = 2 -> is_refined = false /\ changes = true /\ exists s, from_result out1 = OSat false s).
 Proof. exact solve_e2e_invocations. Qed.
 Print Assumptions C04_refine_once.
+
+(* ---- the control-flow model above is hand-written; T-solvedispatch regenerates from solve.py
+   the `match first_line` of from_result (first_line_class), the marker and the guard under
+   which solve_end_to_end solves a second time (refine_guard).  The model is exactly that: *)
+Theorem C04_from_result_follows_source :
+  forall out,
+    class_of (from_result out) = GenSolveDispatch.first_line_class (first_line out) /\
+    GenSolveDispatch.invalid_marker = GenRefine.invalid_marker.
+Proof. intros out. split; [apply from_result_class | exact markers_agree]. Qed.
+Print Assumptions C04_from_result_follows_source.
+
+Theorem C04_e2e_follows_source :
+  forall core_hit is_refined out1 changes out2,
+    solve_e2e core_hit is_refined out1 changes out2 =
+    if core_hit then (OUnsat, 0)
+    else if GenSolveDispatch.refine_guard (out_is_sat (from_result out1)) (out_valid (from_result out1)) is_refined
+            && changes
+         then (from_result out2, 2)
+         else (from_result out1, 1).
+Proof. exact solve_e2e_by_guard. Qed.
+Print Assumptions C04_e2e_follows_source.
 
 (* ---- the dump directory is state that outlives a query: with --dump-smt-directory it is
    shared by overloads of a test, by the probes of an invariant test and by successive halmos
